@@ -24,7 +24,7 @@ from vlib import runner
 ID = "C15"
 LEVEL = "exploration"
 EXHAUSTIVE = False
-EXHAUSTIVE_STREAMS = {'exhaustive': 'all sub-operation interleavings of all unordered pairs of well-formed <=2-operation programs (complete)', 'coercion': 'every listed value form x key x mechanism (complete)', 'bounded/random/singleton': 'sampled'}
+EXHAUSTIVE_STREAMS = {'boundary': 'every key with an observable effect x 6 build / evaluate placements of a lazily evaluated runner (complete)', 'exhaustive': 'all sub-operation interleavings of all unordered pairs of well-formed <=2-operation programs (complete)', 'coercion': 'every listed value form x key x mechanism (complete)', 'bounded/random/singleton': 'sampled'}
 RULE = ("a case is one (thread programs, environment setting, schedule) triple executed with real threads under a baton "
         "scheduler; after every step all live threads read all 4 keys. exhaustive stream: every unordered pair of well-formed "
         "programs of <=2 operations over a 9-symbol alphabet x every sub-operation interleaving; bounded stream: <=3-operation "
@@ -622,6 +622,84 @@ def _replay_coercion(case):
     return None
 
 
+# ------------------------------------------------------------------------------------------ objects that cross a scope / thread boundary
+BOUNDARY_KEYS = {
+    # key -> (override value, dialect, script, observation, value seen without the override, value seen with it)
+    "TSQL_NO_SEMICOLON": (True, "tsql", "SELECT a FROM t1\nSELECT b FROM t2", lambda lr: len(lr.statements()), 1, 2),
+    "DEFAULT_SCHEMA": ("ovr", "ansi", "SELECT a FROM t1", lambda lr: str(lr.source_tables[0]), "<default>.t1", "ovr.t1"),
+}
+BOUNDARY_SHAPES = ["built_in_scope_evaluated_after_normal_exit", "built_in_scope_evaluated_after_exception_exit", "built_in_scope_of_thread_A_evaluated_in_thread_B",
+                   "built_before_scope_evaluated_inside", "built_and_evaluated_inside", "built_in_thread_A_scope_evaluated_in_thread_B_own_scope"]
+
+
+def _boundary_child(key, shape):
+    """a lazily evaluated runner must see the configuration in effect where and when it is evaluated (thread and moment), not where it was built: an
+    override that travels with the object is visible outside its scope / in another thread"""
+    from sqllineage.config import SQLLineageConfig
+    from sqllineage.runner import LineageRunner
+
+    val, dialect, sql, observe_, plain, overridden = BOUNDARY_KEYS[key]
+    mk = lambda: LineageRunner(sql, dialect=dialect)  # noqa: E731
+    box = {}
+
+    def in_thread(fn):
+        th = threading.Thread(target=lambda: box.update(v=fn()))
+        th.start()
+        th.join()
+        return box.get("v")
+
+    import warnings as _w
+
+    with _w.catch_warnings():
+        _w.simplefilter("ignore")
+        if shape == "built_in_scope_evaluated_after_normal_exit":
+            with SQLLineageConfig(**{key: val}):
+                lr = mk()
+            got, want = observe_(lr), plain
+        elif shape == "built_in_scope_evaluated_after_exception_exit":
+            try:
+                with SQLLineageConfig(**{key: val}):
+                    lr = mk()
+                    raise KeyError("boom")
+            except KeyError:
+                pass
+            got, want = observe_(lr), plain
+        elif shape == "built_in_scope_of_thread_A_evaluated_in_thread_B":
+            with SQLLineageConfig(**{key: val}):
+                lr = mk()
+                got, want = in_thread(lambda: observe_(lr)), plain
+        elif shape == "built_before_scope_evaluated_inside":
+            lr = mk()
+            with SQLLineageConfig(**{key: val}):
+                got, want = observe_(lr), overridden
+        elif shape == "built_and_evaluated_inside":
+            with SQLLineageConfig(**{key: val}):
+                got, want = observe_(mk()), overridden
+        else:
+            def b():
+                with SQLLineageConfig(**{key: val}):
+                    return observe_(lr)
+            lr = in_thread(mk) if False else mk()
+            got, want = in_thread(b), overridden
+    if got != want:
+        return {"what": "a runner carried the configuration across a scope / thread boundary", "key": key, "shape": shape, "observed": got, "expected": want}
+    return None
+
+
+def _boundary_stream(ctx):
+    from vlib.props import C12
+
+    res = runner.Res()
+    for key in BOUNDARY_KEYS:
+        for shape in BOUNDARY_SHAPES:
+            c = {"boundary": [key, shape]}
+            res.case(("boundary", key, shape), True, labels=["boundary", "boundary_key:" + key], sample=c)
+            v = C12.in_child(_boundary_child, key, shape)
+            if v is not None:
+                res.violation("boundary", c, v)
+    return res
+
+
 # ------------------------------------------------------------------------------------------ entry points
 def _tup(x):
     return tuple(_tup(i) for i in x) if isinstance(x, (list, tuple)) else x
@@ -630,6 +708,11 @@ def _tup(x):
 def replay(case):
     if "coercion" in case:
         return _replay_coercion(case)
+    if "boundary" in case:
+        from vlib.props import C12
+
+        v = C12.in_child(_boundary_child, *case["boundary"])
+        return None if v is None else {"kind": "replay", "case": case, "detail": v}
     programs = _tup(case["programs"])
     it = iter(case["schedule"])
 
@@ -645,6 +728,7 @@ def replay(case):
 
 def run(ctx):
     res = _coercion_stream(ctx)
+    res.merge(_boundary_stream(ctx))
     # exhaustive: all unordered pairs of <=2-op programs, all sub-operation interleavings, both env settings
     p2 = well_formed_programs(OPS_SMALL, 2)
     pairs = [(p, q) for a, p in enumerate(p2) for q in p2[a:]]
